@@ -85,7 +85,23 @@ fn digest(db: &Database) -> String {
         .map(|t| format!("{}@{}:{}", t.name.to_uppercase(), t.table_name.to_uppercase(), t.when_condition.as_ref().map(|e| { let (n, d) = ex_info(e); format!("{}:{}", n, d) }).unwrap_or_else(|| "none".into())))
         .collect();
     trg.sort();
-    format!("{}#{}#{}", out.join("\n").replace('\n', "&"), idx.join("&"), trg.join("&"))
+    // string components of every index key (what prefix truncation produces), per index
+    let mut keys: Vec<String> = db
+        .list_indexes()
+        .iter()
+        .filter_map(|i| {
+            let data = db.get_index_data(i)?;
+            let mut ks: Vec<String> = data
+                .iter()
+                .map(|(k, _)| k.iter().filter_map(|v| match v { V::Varchar(s) | V::Character(s) => Some(hex(s.as_bytes())), _ => None }).collect::<Vec<_>>().join("/"))
+                .collect();
+            ks.sort();
+            ks.dedup();
+            Some(format!("{}={}", i.to_uppercase(), ks.join(",")))
+        })
+        .collect();
+    keys.sort();
+    format!("{}#{}#{}#{}", out.join("\n").replace('\n', "&"), idx.join("&"), trg.join("&"), keys.join("&"))
 }
 
 /// (number of expression nodes, nesting depth) — same counting as `ExInfo` in Model/BinCodec.lean
@@ -345,7 +361,20 @@ fn model_digest(reply: &Sx) -> Option<String> {
         trg.push(format!("{}@{}:{}", s(&t[0])?, s(&t[1])?, when));
     }
     trg.sort();
-    Some(format!("{}#{}#{}", out.join("&"), idx.join("&"), trg.join("&")))
+    let mut keys = vec![];
+    if let Some(built) = sect("built") {
+        for b in built {
+            let b = b.as_list()?;
+            let mut ks: Vec<String> = b[1..].iter().map(|k| k.as_list().map(|k| k.iter().filter_map(|c| c.as_atom()).collect::<Vec<_>>().join("/")).unwrap_or_default()).collect();
+            ks.sort();
+            ks.dedup();
+            keys.push(format!("{}={}", s(&b[0])?, ks.join(",")));
+        }
+    } else {
+        return None; // the model's rebuild failed (table / column lookup): database-level, not compared
+    }
+    keys.sort();
+    Some(format!("{}#{}#{}#{}", out.join("&"), idx.join("&"), trg.join("&"), keys.join("&")))
 }
 
 fn byte_level(msg: &str) -> Option<&'static str> {
@@ -446,7 +475,9 @@ fn binary_case(cx: &mut Ctx, rep: &mut Report, kind: &str, bytes: &[u8], origin:
                 // shape = everything but the cell values (a value whose tag no longer matches the
                 // column type is coerced by Table::insert, e.g. a VARCHAR cell in a DATE column)
                 let shape = |x: &str| -> String {
-                    let (tabs, idx) = x.split_once('#').unwrap_or((x, "")); // idx = indexes#triggers
+                    let (tabs, idx) = x.split_once('#').unwrap_or((x, "")); // idx = indexes#triggers#keys
+                    // index keys follow the cell values: a coerced cell changes them too
+                    let idx = idx.rsplit_once('#').map(|p| p.0).unwrap_or(idx);
                     let t: Vec<String> = tabs.split('&').map(|t| { let p: Vec<&str> = t.splitn(3, '|').collect(); format!("{}|{}|{}", p.first().unwrap_or(&""), p.get(1).unwrap_or(&""), p.get(2).map(|r| if r.is_empty() { 0 } else { r.split(';').count() }).unwrap_or(0)) }).collect();
                     format!("{}#{}", t.join("&"), idx)
                 };
@@ -1126,7 +1157,7 @@ fn main() {
             for i in lo..hi {
                 let orig = bytes[i];
                 let all = [0xffu8, 0x7f, 0, 1, 2, 5, 0x1e, orig.wrapping_add(1), orig ^ 1, orig ^ 0x80];
-                let mut subs: Vec<u8> = if quick { vec![0xff, all[1 + i % 9], all[1 + (i / 3 + 4) % 9]] } else { all.to_vec() };
+                let mut subs: Vec<u8> = if quick { vec![0xff, all[1 + (i * 4 + i / 9) % 9]] } else { all.to_vec() };
                 subs.sort();
                 subs.dedup();
                 for sb in subs {
@@ -1258,6 +1289,120 @@ fn main() {
                 rep.add("json_cells_located", found);
                 if found < 6 {
                     rep.fail(FailKind::Oracle, None, "the JSON fixture does not contain the expected typed cells", &json);
+                }
+            }
+        }
+    }
+    // ---- prefix indexes over populated string data: every numeric field of the index section ------------
+    {
+        let mut g = GenDb { db: Db::new(), script: vec![], tables: vec![] };
+        g.db.keep_log = false;
+        for sql in [
+            "CREATE TABLE PEOPLE (ID INTEGER, NAME VARCHAR(40), C CHAR(8), N INTEGER)",
+            "CREATE INDEX I1 ON PEOPLE (NAME(1))",
+            "CREATE INDEX I2 ON PEOPLE (NAME(2) DESC)",
+            "CREATE INDEX I4 ON PEOPLE (NAME(4), N)",
+            "CREATE INDEX I8 ON PEOPLE (C(8), NAME)",
+            "CREATE INDEX IM ON PEOPLE (N, NAME(2), C(1))",
+        ] {
+            g.script.push(format!("{};", sql));
+            let o = g.db.exec(sql);
+            if !o.is_ok() {
+                rep.fail(FailKind::Oracle, None, "cannot build the prefix-index fixture", &format!("{} => {}", sql, o.brief()));
+            }
+        }
+        for (i, (name, c)) in [("alice", "ab"), ("éloïse", "漢字"), ("al", "x"), ("", ""), ("漢字漢字漢", "abcdefgh"), ("😀😀", "é")].iter().enumerate() {
+            insert_row(&mut g, "PEOPLE", vec![V::Integer(i as i64), V::Varchar(name.to_string()), V::Character(c.to_string()), V::Integer((i % 3) as i64)]);
+        }
+        insert_row(&mut g, "PEOPLE", vec![V::Integer(99), V::Null, V::Null, V::Null]);
+        let origin = format!("prefix-index fixture:\n{}", g.script.join("\n"));
+        let quick = args.quick();
+        // binary: the index section's fields
+        let pb = cx.dir.join("people.vbsql");
+        if g.db.db.save_binary(&pb).is_ok() {
+            let bytes = std::fs::read(&pb).unwrap_or_default();
+            binary_case(&mut cx, &mut rep, "valid", &bytes, &origin);
+            let sec = cx.m.ask(&format!("sections {}", hex(&bytes)));
+            let offs: Vec<usize> = Sx::parse(&sec).and_then(|s| s.as_list().map(|l| l[1..].iter().filter_map(|x| x.as_atom().and_then(|a| a.parse().ok())).collect())).unwrap_or_default();
+            let lay = cx.m.ask(&format!("layout {}", hex(&bytes)));
+            let fields: Vec<(String, usize, usize)> = Sx::parse(&lay)
+                .and_then(|s| s.as_list().map(|l| l.to_vec()))
+                .unwrap_or_default()
+                .iter()
+                .filter_map(|x| {
+                    let l = x.as_list()?;
+                    Some((l[0].as_atom()?.to_string(), l[1].as_atom()?.parse().ok()?, l[2].as_atom()?.parse().ok()?))
+                })
+                .collect();
+            if offs.len() != 6 || fields.is_empty() {
+                rep.fail(FailKind::ModelDiff, None, "the model cannot lay out a file with prefix indexes written by save_binary", &format!("{}\nfile: {}\nsections: {}\nlayout: {}", origin, hex(&bytes), sec, lay.chars().take(200).collect::<String>()));
+            } else {
+                let (lo, hi) = (offs[3], offs[4]);
+                let numeric: Vec<&(String, usize, usize)> = fields.iter().filter(|(k, off, _)| *off >= lo && *off < hi && matches!(k.as_str(), "count" | "len" | "flag" | "prefix")).collect();
+                rep.add("index_section_numeric_fields", numeric.len() as u64);
+                rep.add("index_section_prefix_fields", numeric.iter().filter(|f| f.0 == "prefix").count() as u64);
+                for (k, off, len) in numeric.iter().map(|f| (&f.0, f.1, f.2)) {
+                    let orig = &bytes[off..off + len];
+                    let val = orig.iter().rev().fold(0u64, |a, b| (a << 8) | *b as u64);
+                    let put = |v: u64| -> Vec<u8> {
+                        let mut b = bytes.clone();
+                        for i in 0..len {
+                            b[off + i] = (v >> (8 * i)) as u8;
+                        }
+                        b
+                    };
+                    let max = if len >= 8 { u64::MAX } else { (1u64 << (8 * len)) - 1 };
+                    let mut vals = vec![0u64, 1, max, val.wrapping_add(1) & max, val.wrapping_sub(1) & max, max >> 1];
+                    // every single-bit flip of the field (prefix lengths: all 64; others in quick: the low byte)
+                    let bits = if !quick { 8 * len } else if k == "prefix" { 16 } else { 8 };
+                    for bit in 0..bits {
+                        vals.push(val ^ (1u64 << bit));
+                    }
+                    if k == "prefix" {
+                        vals.extend([val ^ (1 << 31), val ^ (1 << 32), val ^ (1 << 63), 2, 3, 4, 8, 16, 1 << 32]);
+                    }
+                    vals.sort();
+                    vals.dedup();
+                    for v in vals {
+                        if v == val {
+                            continue;
+                        }
+                        binary_case(&mut cx, &mut rep, &format!("index_field_{}", k), &put(v), &format!("{}\nindex section field {} at byte {} (width {}): {} -> {}", origin, k, off, len, val, v));
+                    }
+                }
+            }
+        }
+        // compressed: the same file with a prefix length set to 0 cannot be produced without re-compressing;
+        // the valid file and blind damage go through the oracle
+        let pz = cx.dir.join("people.vbsqlz");
+        if g.db.db.save_compressed(&pz).is_ok() {
+            let bytes = std::fs::read(&pz).unwrap_or_default();
+            other_case(&mut cx, &mut rep, "compressed", "vbsqlz", "valid", &bytes, &origin);
+            for i in 0..bytes.len() {
+                if quick && i % 4 != 0 {
+                    continue;
+                }
+                let mut b = bytes.clone();
+                b[i] ^= 1 << (i % 8);
+                other_case(&mut cx, &mut rep, "compressed", "vbsqlz", "bitflip", &b, &format!("{}\nbit flip at byte {}", origin, i));
+            }
+        }
+        // JSON: every "prefix_length" value replaced
+        let pj = cx.dir.join("people.json");
+        if g.db.db.save_json(&pj).is_ok() {
+            let json = std::fs::read_to_string(&pj).unwrap_or_default();
+            other_case(&mut cx, &mut rep, "json", "json", "valid", json.as_bytes(), &origin);
+            let needle = "\"prefix_length\": ";
+            let positions: Vec<usize> = json.match_indices(needle).map(|(i, _)| i + needle.len()).collect();
+            rep.add("json_prefix_length_fields", positions.len() as u64);
+            if positions.len() < 6 {
+                rep.fail(FailKind::Oracle, None, "save_json does not write the prefix lengths of the fixture's indexes", &json);
+            }
+            for p in positions {
+                let end = p + json[p..].find(|c: char| c == ',' || c == '\n' || c == '}').unwrap_or(0);
+                for v in ["0", "-1", "1e99", "\"4\"", "null", "18446744073709551615", "18446744073709551616", "1", "3", "0.5", "[]", "true", "00", "4294967296"] {
+                    let j = format!("{}{}{}", &json[..p], v, &json[end..]);
+                    other_case(&mut cx, &mut rep, "json", "json", "prefix_length", j.as_bytes(), &format!("{}\nJSON prefix_length {} -> {}", origin, &json[p..end], v));
                 }
             }
         }
